@@ -226,6 +226,9 @@ impl UnixTerminal {
         // wait for device attributes report or error
         loop {
             match self.poll(Some(Duration::from_secs(1))) {
+                // termination signal that arrives while we are shutting down must not
+                // prevent the epilogue from being delivered
+                Err(Error::Quit) => {}
                 Err(_) | Ok(Some(TerminalEvent::DeviceAttrs(_)) | None) => break,
                 _ => {}
             }
